@@ -28,6 +28,7 @@ import (
 
 	"perkeep.org/pkg/blob"
 	"perkeep.org/pkg/blobserver/memory"
+	"perkeep.org/pkg/cacher"
 	"perkeep.org/pkg/schema"
 	"pgregory.net/rapid"
 
@@ -418,9 +419,10 @@ type writerCase struct {
 	FileName   string `json:"file_name"`
 	// second pass over a store that refuses one data blob (0 = no second pass): the FailPick-th receive
 	// counted from the end (FailFromEnd) or from the start fails, FailDelayMS after it was asked to store
-	FailPick    int  `json:"fail_pick,omitempty"`
-	FailFromEnd bool `json:"fail_from_end,omitempty"`
-	FailDelayMS int  `json:"fail_delay_ms,omitempty"`
+	CachedReaders int  `json:"concurrent_readers_through_caching_fetcher,omitempty"`
+	FailPick      int  `json:"fail_pick,omitempty"`
+	FailFromEnd   bool `json:"fail_from_end,omitempty"`
+	FailDelayMS   int  `json:"fail_delay_ms,omitempty"`
 }
 
 var lengthBases = []int{0, 1, 64 << 10, 256 << 10, 320 << 10, 1 << 20, 1<<20 + 256<<10, 2 << 20, 2<<20 + 256<<10, 3 << 20}
@@ -484,6 +486,9 @@ func genWriterCase(t *rapid.T) writerCase {
 	}
 	c.DelayUS = rapid.SampledFrom([]int{0, 100, 1000}).Draw(t, "storeDelayUS")
 	c.FileName = rapid.SampledFrom([]string{"", "f.bin", "übung.txt"}).Draw(t, "fileName")
+	if c.Length <= 1<<20+300<<10 && rapid.IntRange(0, 3).Draw(t, "cachedReaders") == 0 {
+		c.CachedReaders = rapid.IntRange(2, 4).Draw(t, "nCachedReaders")
+	}
 	if rapid.IntRange(0, 2).Draw(t, "refusal") == 0 {
 		c.FailPick = rapid.IntRange(1, 12).Draw(t, "failPick")
 		c.FailFromEnd = rapid.IntRange(0, 2).Draw(t, "failFromEnd") > 0
@@ -627,12 +632,63 @@ func checkWriter(c *writerCase) (violation string, stats map[string]int) {
 		}
 	}
 	stats = map[string]int{"leaves": len(lv), "nodes": len(w.nodes), "maxBlob": maxSeen}
+	if c.CachedReaders > 0 {
+		if v := checkCachedReaders(c, st, ref, data); v != "" {
+			return v, stats
+		}
+		stats["cachedReaders"] = c.CachedReaders
+	}
 	if c.FailPick > 0 {
 		if v := checkWriterRefusal(c, data, st.received, stats); v != "" {
 			return v, stats
 		}
 	}
 	return "", stats
+}
+
+// slowFetcher delays every fetch a little, so that concurrent readers of one blob overlap.
+type slowFetcher struct {
+	src blob.Fetcher
+	d   time.Duration
+}
+
+func (f slowFetcher) Fetch(ctx context.Context, br blob.Ref) (io.ReadCloser, uint32, error) {
+	time.Sleep(f.d)
+	return f.src.Fetch(ctx, br)
+}
+
+// checkCachedReaders reads the written file back through a cacher.CachingFetcher (what the server's
+// download, thumbnail and UI handlers put in front of the blob store), with several readers starting at
+// once on a cold cache: each of them must get exactly the file.
+func checkCachedReaders(c *writerCase, st *recStore, ref blob.Ref, data []byte) string {
+	cf := cacher.NewCachingFetcher(new(memory.Storage), slowFetcher{st, 300 * time.Microsecond})
+	errs := make([]string, c.CachedReaders)
+	var wg sync.WaitGroup
+	for i := range errs {
+		wg.Add(1)
+		go func(i int) {
+			defer wg.Done()
+			fr, err := schema.NewFileReader(ctxbg, cf, ref)
+			if err != nil {
+				errs[i] = fmt.Sprintf("NewFileReader: %v", err)
+				return
+			}
+			defer fr.Close()
+			got, err := io.ReadAll(fr)
+			if err != nil {
+				errs[i] = fmt.Sprintf("reading: %v", err)
+			} else if !bytes.Equal(got, data) {
+				errs[i] = fmt.Sprintf("read %d bytes, want %d; first difference at %d", len(got), len(data), firstDiff(got, data))
+			}
+		}(i)
+	}
+	wg.Wait()
+	for i, e := range errs {
+		if e != "" {
+			return fmt.Sprintf("reader #%d of %d concurrent readers of the file through a cold caching fetcher: %s", i+1, c.CachedReaders, e)
+		}
+	}
+	return ""
 }
 
 // checkWriterRefusal writes the same stream into a store that refuses one blob: the writer has to report
@@ -697,6 +753,9 @@ func TestWriterRoundTrip(t *testing.T) {
 			}
 			if stats["maxBlob"] == maxChunk {
 				evid.R.Label("writer/hit-1MiB-cap")
+			}
+			if stats["cachedReaders"] > 0 {
+				evid.R.Label("writer/read-back-by-concurrent-readers-through-a-caching-fetcher")
 			}
 			if stats["refusedReceive"] > 0 {
 				evid.R.Label("writer/second-pass-with-one-refused-blob")
